@@ -47,6 +47,7 @@ func init() {
 			{ID: "C12-R17", Title: "the VM installs its own context values on every path", Floor: 3, Run: theVMInstallsItsOwnContextValuesOnEveryPath},
 			{ID: "C12-R18", Title: "options keep what they are given", Floor: 1, Run: optionsKeepWhatTheyAreGiven},
 			{ID: "C12-R19", Title: "options that are refused are rolled back, the OS among them (shared with C11-R23)", Floor: 3, Run: refusedOptionsAreRolledBack},
+			{ID: "C12-R20", Title: "the virtual OS asks itself, not the package", Floor: 20, Run: theVirtualOSAsksItselfNotThePackage},
 		},
 	})
 }
